@@ -150,6 +150,28 @@ def rand_constraint(rng, info, depth=2, bound=None):
     return (k, var, sel, body)
 
 
+def discriminating(rng, info):
+    """A quantified constraint over a symbol that usually has several instances, whose body depends on the bound
+    variable and is satisfiable without being trivial: the verdict differs from element to element, so anything that
+    confuses the elements of one tree (memo keys, scopes, bindings) changes it."""
+    universal = rng.random() < 0.6
+    ident = rng.random() < 0.6
+    if ident:
+        k, var = ("all" if universal else "any"), rng.choice(["x", "e", "elem"])
+    else:
+        k, var = rng.choice([("forall", "exists")[0 if universal else 1], ("all", "any")[0 if universal else 1]]), rng.choice(["<v>", "<q>"])
+    numeric = rng.random() < 0.6 and info["num"]
+    sym = rng.choice(info["num"] if numeric else info["word"])
+    o = ("var", var)
+    if numeric:
+        body = ("atom", rng.choice(["int({0}) >= 1", "int({0}) != 0", "int({0}) % 2 == 1", "int({0}) < 3", "str({0}) != '0'"] if universal
+                                   else ["int({0}) == 1", "int({0}) >= 2", "str({0}) == '2'", "int({0}) % 2 == 0"]), [o])
+    else:
+        body = ("atom", rng.choice(["len(str({0})) <= 2", "str({0}) != 'a'", "not str({0}).startswith('b')", "len(str({0})) != 1"] if universal
+                                   else ["len(str({0})) >= 2", "str({0}) == 'a'", "str({0}).startswith('b')"]), [o])
+    return (k, var, ("sym", sym), body)
+
+
 def features(c, out=None):
     if out is None:
         out = set()
